@@ -111,6 +111,11 @@ func genCrash(rng *rand.Rand, tier string, emit func(string)) {
 			}
 			emit(l)
 		}
+		// a STALLED apply loop on the leader: one entry is applied 4.5 s after it was proposed, i.e. after its proposal
+		// timed out (4 s) and was answered with an error; the writes that follow must still get their own replies
+		for i := 0; i < map[bool]int{false: 1, true: 4}[tier == "thorough"]; i++ {
+			emit(fmt.Sprintf("run3 seed=%d point=apply.entry.before k=%d writes=%d victim=leader delay=4500 slow=1 procs=1", rng.Intn(1<<30), 30+rng.Intn(40), 110+rng.Intn(40)))
+		}
 		return
 	}
 	found, _ := node.VerifPoints()
@@ -641,7 +646,8 @@ func newCrash(c *Ctx) func(string) string {
 					role = "follower"
 				}
 				killAt, _ := strconv.Atoi(a["killat"])
-				return runCrash3(c, seed, point, k, n, delay, win, role, phase, killAt, a["revive"] == "1")
+				procs, _ := strconv.Atoi(a["procs"])
+				return runCrash3(c, seed, point, k, n, delay, win, role, phase, killAt, a["revive"] == "1", procs)
 			}
 			return runCrash(c, seed, point, k, n, delay, win, killAfter, engine, phase)
 		})
